@@ -367,6 +367,13 @@ func (w *liWorld) exec(r *Run, line string) string {
 					append([]string{"new"}, w.lines...))
 			}
 		}
+		if perr == nil && away == "" {
+			var n, target int64
+			if e := w.ctl.QueryRow(`SELECT n, target FROM verif_fault`).Scan(&n, &target); e == nil && n > target {
+				r.Fail(fmt.Sprintf("[C07,C08,C11] a write statement of block %d's transaction failed (injected fault, statement %d of the counted ones) and ProcessBlock reported success and committed: the error was swallowed, the store now misses what that statement wrote", bn, target),
+					append([]string{"new"}, w.lines...))
+			}
+		}
 		_, e2 := w.ctl.Exec(`UPDATE verif_fault SET armed=0`)
 		if e2 != nil && strings.Contains(e2.Error(), "locked") {
 			r.Fail(fmt.Sprintf("[C07] after ProcessBlock(%d) returned `%v` the L1 info store stays locked for every other connection: the block's transaction was neither committed nor rolled back", bn, perr),
